@@ -52,6 +52,10 @@ CHECKS = {
    technique="model-based property-based testing (rapid) with injected faults: the real ClientWorker against a scripted connection, history checked by invariants",
    text="The real baseoutput.ClientWorker (sender and acknowledger goroutines, leftovers, reconnect policy) runs against a scripted ClosableClientConnection whose successive connect/send/ping/ACK-read operations succeed, fail, block until closed or deadline, return an unknown ID or answer late, in explicit-ID or in-order style; chunks are fed with gaps; a stop request is issued when the k-th I/O operation begins or after a drain wait; SIGUSR1 and max-session-age reconnects are injected. The recorded history must satisfy: delivered only after the upstream acknowledged that chunk on a connection where its send succeeded; every chunk taken from the queue resolved exactly once and OnFinished last; per connection increasing IDs without skipping an older unresolved chunk; termination after the stop request.",
    note="Timeouts are defs variables scaled to 2-80 ms. Interleavings of sender and acknowledger are varied by scripted per-operation delays and by the Go scheduler (8-16 processes, plus -race shards in thorough), not enumerated. Liveness (retransmission until acknowledged) is observed within a 400 ms drain budget and reported as a class, never as a violation; the safety form (nothing lost at stop) is what is decided."),
+ "C03": dict(engine="c03buffer", category="exploration", design="§3 C03",
+   technique="stateful model-based property-based testing (rapid) of the real hybrid buffer with a harness-controlled consumer; invariants checked at every quiescent point",
+   text="Histories of accept / consumer take+confirm / take+hold (handed back at its end) / stall / stop early / arm / destroy+restart run against the real hybridbuffer on one directory with memory windows of 2-8 and queue capacities of 4-64 chunks, size limits from half a chunk to ample, and an unusable queue directory. After every Destroy: each accepted chunk is confirmed with its file gone, or a byte-identical file, or counted in dropped_chunks_total (exactly); nothing is delivered twice or altered; delivery follows acceptance order with recovered chunks first; the files stay within maxBufSize plus the chunks handed back at that shutdown; Accept returns while the consumer stalls; once the in-memory window provably holds >= Max/2 chunks every further accepted chunk is unloaded or dropped.",
+   note="Capacities are defs variables scaled down; a history in which more files are on disk at a start than the scaled queue capacity (production: 500 000) skips the size bound from there on. Concurrency between Accept, the feeder and the consumer callbacks is whatever the Go scheduler gives (8-16 processes, -race shards in thorough)."),
 }
 
 NOT_YET = {}
